@@ -136,7 +136,8 @@ with prelude.NoTracing():
         (("H+", "H"), ("H2+",), -1.0, -1.0, 100),  # ... listed in the other order
         (("CO", "H"), ("HCO",), 10.0, 300.0, 999),  # entry 0 without type information (as read from a KROME file): matches any type
     ]
-    POOL = [Reaction(list(r), list(p), lo, hi, reaction_type=ReactionType(t)) for r, p, lo, hi, t in POOL_DESC]
+    # every entry carries its own database index (as reactions read from a numbered file do): no mode compares it
+    POOL = [Reaction(list(r), list(p), lo, hi, reaction_type=ReactionType(t), idxfromfile=101 + k) for k, (r, p, lo, hi, t) in enumerate(POOL_DESC)]
 
 
 def _canon(n):
